@@ -615,6 +615,33 @@ def k5(prog, rep):
     rep.check(outs == {0: 0, 1: 8, 2: 16, 3: 24}, "K5-crc", "Final writes the state least-significant byte first", fi.loc, "%s" % outs, function="CRC32C_Final", construct="final")
 
 
+def k10_encap(prog, rep, only=None):
+    """The block buffer, the length counter and the chaining state of a hash context are touched only by that hash's own
+    Init / Update / Pad / Final routines (whose handling of them K2, K6, K8 decide): nothing else in the unit -- the HMAC layer,
+    PBKDF2, the one-shot wrappers -- reads or writes those members.  Everything above the hash goes through its interface, which
+    is what makes the structure rules about Update and Pad speak for every byte that is hashed."""
+    for up, pref in (("alg/sha256.c", "SHA256"), ("alg/sha1.c", "SHA1"), ("alg/md5.c", "MD5")):
+        if only is not None and pref not in only:
+            continue
+        u = prog.unit(up)
+        core = (pref + "_Init", pref + "_Update", pref + "_Update_internal", pref + "_Pad", pref + "_Final", pref + "_Final_internal", pref + "_Transform")
+        n = 0
+        bad = []
+        for f in u.funcs:
+            if f.file != up:
+                continue
+            for e in f.all_elems():
+                if e.cls == "MemberExpr" and e.decl and e.decl.get("name") in ("buf", "count", "state"):
+                    n += 1
+                    if f.name not in core:
+                        bad.append((f, e))
+        if n < 10:
+            raise cdb.AnalysisBroken("K10: fewer than 10 accesses to the context members of %s found (members renamed?)" % pref)
+        rep.check(not bad, "K10-encap", "%s: the context's buffer, counter and state are touched only by the hash's own routines" % pref,
+                  (bad[0][1].where if bad else u.path), ("%s in %s" % (show(norm(bad[0][1])), bad[0][0].name)) if bad else "%d accesses, all in %s" % (n, ", ".join(core[:1] + core[1:])),
+                  function=(bad[0][0].name if bad else pref), construct="ctx-internals")
+
+
 def sha256_rules(cfg, rep):
     """SHA-256 / HMAC-SHA256 as other properties rely on them (C11's generator, C19's signatures): compression structure,
     padding, HMAC pads and sequences, bounded block-buffer writes, context typestate."""
@@ -622,15 +649,17 @@ def sha256_rules(cfg, rep):
     rep.add_stats(prog)
     sha256(prog, rep)
     k2_k3_k6(prog, rep, only=("SHA256",))
+    k10_encap(prog, rep, only=("SHA256",))
+    k7_regions(prog, rep, only=("alg/sha256.c",))
     ctx_typestate(prog, rep, ["alg/sha256.c"])
 
 
-def k7_regions(prog, rep):
+def k7_regions(prog, rep, only=None):
     """Array-parameter contracts: an argument passed for `T p[static N]` designates at least N elements inside its
     object, and two `restrict` array parameters of one call never receive overlapping regions of the same object."""
     from .. import mem
     n = 0
-    for up in ("alg/sha256.c", "alg/sha1.c", "alg/md5.c"):
+    for up in (only or ("alg/sha256.c", "alg/sha1.c", "alg/md5.c")):
         u = prog.unit(up)
         for f in u.funcs:
             if f.file != up:
@@ -841,6 +870,7 @@ def run(tier):
         k5(prog, rep)
         k7_regions(prog, rep)
         k8_bitcount(prog, rep)
+        k10_encap(prog, rep)
         ctx_typestate(prog, rep, ["alg/sha256.c", "alg/sha1.c", "alg/md5.c"])
     n = len(configs)
     rep.require_min("K9-ctxstate", 12 * n)
